@@ -478,6 +478,27 @@ func ParseToken(s string) (parsed string, ok bool) {
 	return s, true
 }
 
+// isDecodableBase64 reports whether s, which must contain only characters of
+// the base64 alphabet and "=", can be base64-decoded. As recommended by RFC
+// 9651, "=" padding may be omitted and non-zero pad bits are not rejected.
+func isDecodableBase64(s string) bool {
+	data := strings.TrimRight(s, "=")
+	if strings.Contains(data, "=") {
+		return false
+	}
+	pad := len(s) - len(data)
+	switch len(data) % 4 {
+	case 0:
+		return pad == 0
+	case 2:
+		return pad == 0 || pad == 2
+	case 3:
+		return pad == 0 || pad == 1
+	}
+	// A single trailing base64 character cannot encode a whole octet.
+	return false
+}
+
 // https://www.rfc-editor.org/rfc/rfc9651.html#name-parsing-a-byte-sequence.
 func consumeByteSequence(s string) (consumed, rest string, ok bool) {
 	if len(s) == 0 || s[0] != ':' {
@@ -485,6 +506,9 @@ func consumeByteSequence(s string) (consumed, rest string, ok bool) {
 	}
 	for i := 1; i < len(s); i++ {
 		if ch := s[i]; ch == ':' {
+			if !isDecodableBase64(s[1:i]) {
+				return "", s, false
+			}
 			return s[:i+1], s[i+1:], true
 		}
 		if ch := s[i]; !isAlpha(ch) && !isDigit(ch) && !slices.Contains([]byte("+/="), ch) {
